@@ -33,6 +33,7 @@ type ccScn struct {
 	Corrupt    string `json:"corrupt"`    // "" | "truncate" | "flip" | "other"
 	DropExt    bool   `json:"drop_ext"`   // remove the compress_certificate extension after BuildHandshakeState
 	ZWindow    int    `json:"zwindow"`    // zstd encoder window size in bytes (0 = 128 KiB); a streamed frame declares it in its header
+	Advertised0 []int `json:"advertised0"` // non-empty: the list of a first build, before the extension is edited to Advertised
 	ClientAuth int    `json:"client_auth"` // 1: the server requests a client certificate (CertificateRequest precedes its certificate), 2: requires one
 }
 
@@ -204,11 +205,29 @@ func init() {
 				for _, a := range s.Advertised {
 					algs = append(algs, tls.CertCompressionAlgo(a))
 				}
+				var ccExt *tls.UtlsCompressCertExtension
 				for _, e := range spec.Extensions {
 					if cc, ok := e.(*tls.UtlsCompressCertExtension); ok {
 						cc.Algorithms = algs
+						ccExt = cc
 						found = true
 					}
+				}
+				if found && len(s.Advertised0) > 0 {
+					// the hello is first built with another list, then the extension is edited down to Advertised and
+					// the hello is built again by Handshake: only what the LAST build put on the wire is advertised
+					ccExt.Algorithms = nil
+					for _, a := range s.Advertised0 {
+						ccExt.Algorithms = append(ccExt.Algorithms, tls.CertCompressionAlgo(a))
+					}
+					if err := u.ApplyPreset(&spec); err != nil {
+						return err
+					}
+					if err := u.BuildHandshakeState(); err != nil {
+						return err
+					}
+					ccExt.Algorithms = algs
+					return nil
 				}
 				if !found {
 					return fmt.Errorf("spec of %s has no compress_certificate extension", s.ID)
